@@ -244,6 +244,16 @@ def judge_file(path, rows, swap, failures, hsh, desc, flags_present, fc=None):
             except ValueError:
                 pass
             evals += 1
+            # the forecast's region reports the same cell as outside through its membership test and the catalog's spatial filter
+            try:
+                clon, clat = (p['lon0'] + p['lon1']) / 2, (p['lat0'] + p['lat1']) / 2
+                msk = bool(numpy.asarray(fc.region.get_masked(numpy.array([clon]), numpy.array([clat])))[0])
+                kept = fixtures.catalog([('f0', 1262304000000, clat, clon, 5.0, p['m0'])]).filter_spatial(fc.region, in_place=False).event_count
+                evals += 2
+                if not msk or kept != 0:
+                    fail('GriddedForecast.region', 'flagged-out-cell-reported-inside', f'centre of a cell flagged 0: region.get_masked -> {msk}, filter_spatial(region) keeps {kept} event(s)')
+            except Exception as e:
+                fail('GriddedForecast.region', type(e).__name__, f'{type(e).__name__}: {e}')
     for hole in desc.get('holes', []):
         try:
             g = fc.get_rates(numpy.array([hole[0]]), numpy.array([hole[1]]), numpy.array([mags[0]]))
@@ -451,6 +461,20 @@ def run_scale(case, failures, hsh):
         ratio = obs / orig
         if not numpy.allclose(ratio, ratio.ravel()[0], rtol=1e-13, atol=0):
             failures.append(Fail('GriddedForecast.scale|not-linear|any', f'{ratio.tolist()}', rep))
+        # rates looked up for target events reflect the CURRENT data (original x the last effective factor), once
+        try:
+            tcat = fixtures.catalog([(f't{i}', 1262304000000 + i, 0.05 + 0.1 * (i // 2), 0.05 + 0.1 * (i % 2), 5.0, 5.0 + 0.1 * (i % 2)) for i in range(4)])
+            ter, nf = obj.target_event_rates(tcat)
+            g_ = numpy.asarray(obj.get_rates(tcat.get_longitudes(), tcat.get_latitudes(), tcat.get_magnitudes()), dtype=float)
+            cur = numpy.array(obs, dtype=float)
+            ii = numpy.asarray(obj.region.get_index_of(tcat.get_longitudes(), tcat.get_latitudes()))
+            mm = numpy.asarray(obj.get_magnitude_index(tcat.get_magnitudes()))
+            want_t = cur[ii, mm]
+            if not (numpy.allclose(numpy.asarray(ter, dtype=float), want_t, rtol=1e-13, atol=0) and numpy.allclose(g_, want_t, rtol=1e-13, atol=0) and abs(float(nf) - float(cur.sum())) <= 1e-12 * float(cur.sum())):
+                failures.append(Fail('GriddedForecast.target_event_rates|differs-from-the-current-data|scaled',
+                                     f'history {list(hist)} then {op}: target_event_rates {numpy.asarray(ter).tolist()} (n_fore {float(nf)!r}), get_rates {g_.tolist()}, current data at those bins {want_t.tolist()} (sum {float(cur.sum())!r})', rep))
+        except Exception as e:
+            failures.append(Fail(f'GriddedForecast.target_event_rates|{type(e).__name__}|scaled', f'{type(e).__name__}: {e}', rep))
         t = float(obj.sum())
         if abs(float(numpy.sum(obj.spatial_counts())) - t) > 1e-12 * t or abs(float(numpy.sum(obj.magnitude_counts())) - t) > 1e-12 * t:
             failures.append(Fail('GriddedForecast|marginals-do-not-sum-to-total|scaled', f'history {list(hist)} {op}', rep))
